@@ -132,13 +132,14 @@ def do_op(F, op, designs, frs, ns, env):
 
 
 def cases(tier):
-    K = 3 if tier == "quick" else 4
-    fsel = [0, 1, 4] if tier == "quick" else [0, 1, 2, 3, 4]
+    K = 4
+    fsel = [0, 1] if tier == "quick" else [0, 1, 2, 3, 4]
     out = []
     for mode in ([0, 1] if tier == "quick" else [0, 1, 2]):
-        for first in fsel:  # the first operation builds a design (otherwise nothing can leak)
+        for first in (fsel + [4] if tier == "quick" else fsel):  # the first operation builds a design (otherwise nothing can leak)
             for fr in (0, 2) if tier == "quick" else (0, 1, 2):
-                out.append((K, mode, first, fr, tuple(fsel)))
+                for second in range(12 if tier == "quick" else 40):  # index of the second operation (parallelism)
+                    out.append((K, mode, first, fr, tuple(fsel), second))
     return out
 
 
@@ -162,7 +163,7 @@ def reference(op_chain, mode, sym, env_factory):
 
 
 def harness(env, case):
-    K, mode, first, first_frame, fsel = case
+    K, mode, first, first_frame, fsel, second = case
     sym = env.mode == "sym"
     c = env.c
     forced = env.model.get("_history") if not sym else None
@@ -185,12 +186,16 @@ def harness(env, case):
         elif step == 0:
             op = ("build", first, first_frame)
         else:
-            options = [("build", a, b) for a in fsel for b in (0, 2)]
-            options += [("evalc", d, b) for d in range(len(designs)) for b in (0, 1, 2)]
+            options = [("build", a, b) for a in fsel for b in ((2,) if harness.tier == "quick" else (0, 2))]
+            options += [("evalc", d, b) for d in range(len(designs)) for b in ((0, 2) if harness.tier == "quick" else (0, 1, 2))]
             options += [("evalg", d, b) for d in range(len(designs)) if designs[d].group is not None for b in (0, 2)]
-            if K > 3:
-                options += [("cfg", m) for m in range(len(MODES)) if m != cur_mode]
-            op = options[c.pick(len(options))]
+            options += [("cfg", m) for m in range(len(MODES) if harness.tier != "quick" else 2) if m != cur_mode]
+            if step == 1:
+                if second >= len(options):
+                    raise symx.PathEnd()
+                op = options[second]
+            else:
+                op = options[c.pick(len(options))]
         history.append(list(op))
         info = {"history": [list(h) for h in history], "_replay": {"_history": [list(h) for h in history]}}
         snap = do_op(F, op, designs, frs, ns, env)
@@ -218,6 +223,9 @@ def harness(env, case):
     F.config["EVAL_UNSEEN_CATEGORIES"] = "error"
 
 
+harness.tier = "quick"
+
+
 def _frame_same(a, b):
     if a["columns"] != b["columns"] or a["dtypes"] != b["dtypes"] or a["index"] != b["index"]:
         return False
@@ -241,12 +249,13 @@ def reference_cached(chain, mode, sym, env):
 
 
 def run(tier, seed):
+    harness.tier = tier
     rep = core.Report(ID, tier, seed)
     rep.functions = ["formulae.terms.call_resolver.LazyCall.eval (stateful_transform per call site)", "formulae.transforms.TRANSFORMS / Center / Scale / Polynomial / user-registered transform", "formulae.config.config",
                      "formulae.matrices.design_matrices, Common/GroupEffectsMatrix.evaluate_new_data (shared slices / terms)", "formulae.terms.terms/variable/call eval_new_data*"]
     cs = cases(tier)
     K = cs[0][0]
-    rep.bounds = {"history length": K, "pool": {"formulas": FORMULAS if tier != "quick" else [FORMULAS[i] for i in (0, 1, 4)], "frames": "3 frames with disjoint z3 symbols (one containing an unseen group level)", "modes": MODES},
+    rep.bounds = {"history length": K, "pool": {"formulas": FORMULAS if tier != "quick" else [FORMULAS[i] for i in (0, 1)] + ["(first build also) " + FORMULAS[4]], "frames": "3 frames with disjoint z3 symbols (one containing an unseen group level)", "modes": MODES},
                   "operations": "build(formula, frame) | common.evaluate_new_data(design, frame) | group.evaluate_new_data(design, frame)" + (" | config[...] = mode" if K > 3 else "") + "; the initial mode and the first build are case parameters",
                   "cases": len(cs)}
     rep.outside = ["histories longer than the bound; interleaving across threads/processes", "state outside formulae's own modules (pandas / numpy global options)"]
